@@ -2528,7 +2528,10 @@ pub fn parse_ml_predict(input: &str) -> IResult<&str, MLPredictClause<'_>> {
 
     // Extract SELECT variables
     if let Some(select_idx) = input_query.find("SELECT") {
-        if let Some(where_idx) = input_query.find("WHERE") {
+        if let Some(where_idx) = input_query
+            .find("WHERE")
+            .filter(|where_idx| select_idx + 6 <= *where_idx)
+        {
             let select_clause = &input_query[select_idx + 6..where_idx].trim();
             // Parse SELECT variables (simplified version - in real code you would use your actual SELECT parser)
             let vars: Vec<&str> = select_clause.split_whitespace().collect();
@@ -2776,8 +2779,8 @@ fn parse_duration_to_seconds(duration: &str) -> usize {
             if let Ok(num) = time_part[..num_end].parse::<usize>() {
                 match time_part.chars().nth(num_end) {
                     Some('S') => num,        // seconds
-                    Some('M') => num * 60,   // minutes to seconds
-                    Some('H') => num * 3600, // hours to seconds
+                    Some('M') => num.saturating_mul(60), // minutes to seconds
+                    Some('H') => num.saturating_mul(3600), // hours to seconds
                     _ => num,
                 }
             } else {
